@@ -73,3 +73,11 @@ Definition commit_covered (rs : list record) (r : record) : Prop :=
   exists l1 l2 l3 t, rs = l1 ++ r :: l2 ++ TxCommit t :: l3 /\ forallb (fun x => negb (is_clear x)) l2 = true.
 (** the records the commit markers of a record sequence publish *)
 Definition committed (rs : list record) : list record := snd (sm_run ([], []) rs).
+
+(** * The codec premises, restricted to what a history actually writes *)
+(** the records the history [ss] appends to the log, under the concrete codec *)
+Definition real_logs (cfg : wcfg) (ss : list session) : list record :=
+  hist_logs crc32 enc_record dec_record_slice cfg db_fresh ss.
+(** a record the bincode codec carries: well formed (u64 ids, UTF-8 strings, values that are
+    the bincode form of a [Value]) and shorter than 4 GiB once encoded *)
+Definition rec_fits (r : record) : Prop := rec_wf r /\ lenZ (enc_record r) < two32.
